@@ -703,6 +703,10 @@ def gen_bitmap_set(rng, i=None):
     fmt = rng.choice(["cbdt", "sbix"])
     res = rng.choice([32, 64, 128, 136])
     n = rng.randint(1, 4)
+    if i is not None and i % 5 == 0:
+        # forced scenario (a .notdef bitmap, below): at least two glyphs, formats alternating
+        fmt = ["cbdt", "sbix"][(i // 5) % 2]
+        n = max(n, 2)
     glyphs = [_simple_glyph(rng, (0x1F600 + 2 * i_,)) for i_ in range(n)]
     if i is not None and i % 5 == 0 and n >= 2:
         # artwork for .notdef (glyph 0): the colour glyphs are then glyph 0 and glyphs 2.. --
@@ -710,9 +714,9 @@ def gen_bitmap_set(rng, i=None):
         glyphs[rng.randrange(n)].name = ".notdef"
     pngs = [_png(rng.choice([res, res, min(250, res * 2), res // 2 + 1]), res, e2e._rgb(rng)) for _ in range(n)]
     if n > 1 and rng.random() < 0.3 and not any(getattr(g, "name", None) for g in glyphs):
-        # (not together with a .notdef bitmap: that one sits in a strike of its own, where another
-        # height is representable -- but every bitmap is assumed to be of height
-        # bitmap_resolution, which is what the driver renders: BitmapMetrics.create's precondition)
+        # (not together with a .notdef bitmap: that one sits in a run -- a CBLC strike -- of its
+        # own, and bitmaps of another height there give a font whose strikes differ in ppem
+        # and in the glyphs they hold; the statement says nothing about such fonts: left out)
         # one strike has one ppem: a set of bitmaps of different pixel heights cannot be
         # represented (it must be rejected, or every glyph must still get its own ppem)
         k = rng.randrange(n)
@@ -814,7 +818,7 @@ def gen_cli_reuse(rng, i=None):
                 sh.opacity = 1.0  # known finding F14 has its own witness
     for k, g in enumerate(glyphs):
         g.codepoints = (0x1F600 + k,)
-    return {"fmt": fmt, "glyphs": glyphs, "tolerances": [rng.choice([0.1, 0.05, 0.5]), -1]}
+    return {"fmt": fmt, "glyphs": glyphs, "tolerances": [rng.choice([0.1, 0.05, 0.5]), [-1, -0.5, -1, -2][i % 4]]}
 
 
 def run_cli_reuse(fmt, glyphs, tolerances):
